@@ -32,7 +32,14 @@ Proof. intros m qn k0 body _. exact (executed_not_dead body). Qed.
 Theorem C01_flow_agrees_with_builder_bounded : forallb check_one all_bodies = true.
 Proof. exact flow_agrees_with_builder_bounded. Qed.
 
+(* the reported line ranges (first statement start .. last statement end of each unreachable block of the graph-level
+   model) contain only statements the abstraction marks dead, on the same bounded domain: together with C01_sound no
+   statement on a reported line executes *)
+Theorem C01_ranges_cover_only_dead_bounded : forallb check_ranges all_bodies = true.
+Proof. exact ranges_cover_only_dead_bounded. Qed.
+
 Print Assumptions C01_executed_is_marked_reachable.
 Print Assumptions C01_flow_agrees_with_builder_bounded.
+Print Assumptions C01_ranges_cover_only_dead_bounded.
 Print Assumptions C01_sound.
 Print Assumptions C01_sound_every_def.
